@@ -1091,8 +1091,16 @@ class Machine:
         elif c == "slice-value-not-a-sample":
             i = st.draw(0, n - 2, "i")
             bogus = float((x[i] + x[i + 1]) / 2)
-            k = st.draw(0, 2, "which")
+            k = st.draw(0, 4, "which")
             beyond = float(x[-1]) + max(1.0, float(x[-1] - x[-2]))          # never absorbed by the magnitude of x
+            # a value that WAS a sample in an earlier state of this very object (before a truncation, a shift, ...) and
+            # is none now: what a lookup table that outlives the series would still find
+            cur = set(float(v) for v in x)
+            gone = sorted(v for v in getattr(self, "past_x", ()) if v not in cur)
+            if k >= 3:
+                k -= 3
+                if gone:
+                    bogus = gone[st.draw(0, len(gone) - 1, "former-sample")]
             args = (bogus, None) if k == 0 else ((None, bogus) if k == 1 else (beyond, None))
             if st.coin(1, 3, "with-step"):
                 args = args + (st.draw(1, 3, "step"),)
@@ -1521,9 +1529,21 @@ def observe(M):
         M.fail("W5/observer-changed-state", f"observer={k}", "a read-only accessor changed the state")
 
 
+def _remember_x(M):
+    past = getattr(M, "past_x", None)
+    if past is None:
+        past = M.past_x = set()
+    if len(past) < 4000:
+        past.update(float(v) for v in M.cur()[0][:400])
+
+
 def _run_c20(M, params):
     st = M.st
+    _remember_x(M)
     for _ in range(st.draw(0, 6, "prefix")):
+        _remember_x(M)
+        if st.coin(1, 5, "observe?"):
+            observe(M)                  # read-only calls (slices, to_function, ...) may build hidden state
         if st.coin(2, 5, "reshape?"):
             g = M.gen_reshape()
             if g is not None:
@@ -1545,8 +1565,10 @@ def _run_c20(M, params):
             M.inject_invalid()
         return
     for _ in range(st.draw(1, 3, "n-invalid")):
+        _remember_x(M)
         M.inject_invalid()
         for _ in range(st.draw(0, 3, "suffix")):
+            _remember_x(M)
             if st.coin(1, 2, "reshape?"):
                 g = M.gen_reshape()
                 if g is not None:
